@@ -192,6 +192,18 @@ def _s1(program, res):
                         f"(facts on the path: {sorted(repr(x) for x in facts)}); a second extend that reads a column "
                         f"the first one writes would be evaluated on the stale value", last.stmt,
                         facts={"path": conds})
+        # the merged step must itself be a legal extend: nothing it keeps from the first step may read a column the second step assigns
+        # (the builder rejects "columns both produced and used in same expression set", so the printed pipeline could not be read back)
+        want2 = {Sym("inter", Sym("used", Sym("dict", o1)), Sym("keys", Sym("dict", o2))),
+                 Sym("inter", Sym("keys", Sym("dict", o2)), Sym("used", Sym("dict", o1)))}
+        if facts & want2:
+            res.ok("C06-S1", f"try_to_merge_ops {where}: merged return entails used({o1}) ∩ keys({o2}) = ∅ (the merged step is a legal extend)")
+        else:
+            res.fail_at("C06-S1", f, f"merged-step-reads-what-it-assigns:{where}",
+                        f"a path returns a merged dict without establishing used({o1}) ∩ keys({o2}) = ∅: "
+                        f".extend({{'x': '1', 'w': 'b + 1'}}).extend({{'x': '2', 'b': '5'}}) becomes .extend({{'w': 'b + 1', 'x': '2', 'b': '5'}}), a step that "
+                        f"reads and assigns `b` — the builder refuses exactly that when written by hand, so eval(repr(ops)) raises", last.stmt,
+                        facts={"path": conds})
         # last writer is ops2
         if not isinstance(rv, ast.Name):
             raise AnalysisError("try_to_merge_ops: merged return value is not a local variable")
@@ -243,6 +255,22 @@ def _s2(program, model, res):
         res.ok("C06-S2", "merged ExtendNode guarded by partition/order/reverse/windowing of both nodes and try_to_merge_ops",
                {"required": required})
     _s2_order_sensitive(ep, g, d, merged, res)
+    # "same windowing": what is compared with self.windowed_situation must be the windowed-ness the new step would have as a node of its
+    # own, i.e. it depends on the new ops *and* on partition_by / order_by (partition_by=1 forces a window without any window function)
+    for nd in g.stmt_nodes(("stmt", "test")):
+        root = nd.cond if nd.kind == "test" else nd.stmt
+        for c in ast.walk(root):
+            if isinstance(c, ast.Compare) and len(c.ops) == 1 and isinstance(c.ops[0], ast.Eq) \
+                    and any(unparse(x) == "self.windowed_situation" for x in [c.left] + list(c.comparators)):
+                other_side = c.comparators[0] if unparse(c.left) == "self.windowed_situation" else c.left
+                rts = d.roots_at(nd, other_side)
+                miss2 = depsmod.missing_roots(rts, ["parsed_ops", "partition_by", "order_by"])
+                if miss2:
+                    res.fail_at("C06-S2", ep, f"windowing-of-new-step-ignores:{','.join(miss2)}",
+                                f"`{unparse(c)[:80]}` judges the new step's windowing without {miss2}: extend({{'a': 'x + 1'}}).extend({{'n': '_size()'}}, partition_by=1) "
+                                f"is merged into one windowed node, which is refused as 'too complex' or fails at evaluation, while the two steps work one at a time", c)
+                else:
+                    res.ok("C06-S2", "the new step's windowing is computed from its ops, partition_by and order_by before it is compared with the node's")
     # the merged node keeps the *new* call's window arguments and the old node's source
     v = merged.stmt.value
     kws = {kw.arg: unparse(kw.value) for kw in v.keywords}
@@ -284,10 +312,20 @@ def _s2_order_sensitive(ep, g, d, merged, res):
                 l, r = sub.left, sub.comparators[0]
                 if is_ob(l, binding) and is_ob(r, binding):
                     direct = True
+            if isinstance(sub, ast.Compare) and len(sub.ops) == 1 and isinstance(sub.ops[0], (ast.Eq, ast.NotEq)):
+                # an order-insensitive wrapper matters only where the two order_by values are compared through it
+                sides = [sub.left, sub.comparators[0]]
+                wrapped = []
+                for sd in sides:
+                    for c_ in ast.walk(sd):
+                        if isinstance(c_, ast.Call) and (dotted_name(c_.func) or "").split(".")[-1] in ORDER_INSENSITIVE and c_.args and is_ob(c_.args[0], binding):
+                            wrapped.append(c_)
+                if len(wrapped) >= 2 or (wrapped and any(is_ob(x, binding) for sd in sides for x in ast.walk(sd) if x not in [w.args[0] for w in wrapped] and isinstance(x, (ast.Name, ast.Attribute)) and not any(x is w.args[0] for w in wrapped))):
+                    insensitive.extend(unparse(w) for w in wrapped)
             if isinstance(sub, ast.Call):
                 fn = dotted_name(sub.func) or ""
                 if fn.split(".")[-1] in ORDER_INSENSITIVE and sub.args and is_ob(sub.args[0], binding):
-                    insensitive.append(unparse(sub))
+                    pass
                 elif fn in helpers and any(is_ob(a, binding) for a in sub.args):
                     h = helpers[fn]
                     b2 = {}
